@@ -199,6 +199,56 @@ def gen_case(rng, max_len):
     return out[: max(n, 1)], style
 
 
+def gen_repeats(rng):
+    """Histories in which the audio layer must emit the SAME event twice in a row (same tag key
+    updated twice, same URI started twice, same position, same state report)."""
+    style = rng.choice(["directed", "stutter"])
+    if style == "stutter":
+        base, _ = gen_case(rng, 25)
+        out = []
+        for i in base:
+            out.extend([i] * rng.weighted([(1, 5), (2, 3), (3, 1)]))
+        return out[:60]
+    out = []
+    if rng.random() < 0.7:
+        out += [("prep", True), ("uri", rng.randrange(N_URIS), False, rng.random() < 0.5), ("start", True)]
+    for _ in range(rng.randint(1, 5)):
+        k = rng.choice(["ss", "title", "seg", "eos", "sc", "gapless", "pos"])
+        n = rng.randint(2, 3)
+        if k == "ss":
+            out += [("ss",)] * n
+        elif k == "title":      # a radio stream updating one tag: tags_changed([key]) each time
+            key = rng.randrange(len(drv.TAG_NAMES))
+            if rng.random() < 0.6:
+                out.append(("ss",))
+            ids = rng.sample(range(N_IDS), n)
+            out += [("tag", [[key, [keep(i)]]]) for i in ids]
+        elif k == "seg":
+            p = rng.choice([0, 1234567890])
+            out += [("seg", p)] * n
+        elif k == "eos":
+            out += [("eos",)] * n
+        elif k == "sc":
+            new = rng.choice(["PLAYING", "PAUSED", "NULL"])
+            out += [("sc", True, "READY", new, "VOID_PENDING")] * (n + 1)
+        elif k == "gapless":    # repeat-single: the same URI started again, nothing in between
+            u = rng.randrange(N_URIS)
+            out += [("atfcb", True)] + [("atf", False, [u, False, False]), ("ss",)] * n
+        else:
+            out += [("pos?", True, 1500000000)] * n
+    return out[:60]
+
+
+REPEAT_CORPUS = [
+    # radio title updated twice: two tags_changed(['title'])
+    [("uri", 0, False, True), ("ss",), ("tag", [[0, [keep(1)]]]), ("tag", [[0, [keep(2)]]]), ("tag", [[0, [keep(3)]]])],
+    # same URI started twice gaplessly: two stream_changed(uri)
+    [("uri", 1, False, False), ("ss",), ("uri", 1, False, False), ("ss",), ("ss",)],
+    [("start", True), ("sc", True, "PAUSED", "PLAYING", "VOID_PENDING"), ("sc", True, "PAUSED", "PLAYING", "VOID_PENDING"),
+     ("sc", True, "PAUSED", "PLAYING", "VOID_PENDING"), ("seg", 5000000), ("seg", 5000000), ("eos",), ("eos",)],
+]
+
+
 CORPUS_INLINE = [
     # about-to-finish: refused inside the actor thread, ignored without callback, else runs set_uri
     [("atf", False, [1, False, False]), ("atfcb", True), ("atf", True, [2, False, True]), ("atf", False, [3, True, True]),
@@ -231,8 +281,8 @@ CORPUS_INLINE = [
 # ------------------------------------------------------------------ running the implementation
 
 
-def run_impl(inputs, rng=None):
-    rig = drv.Rig(rng=rng)
+def run_impl(inputs, rng=None, real_listener=False):
+    rig = drv.Rig(rng=rng, real_listener=real_listener)
     try:
         obs = [rig.apply(i) for i in inputs]
         # what a consumer that reads the event payloads later (another thread) sees
@@ -656,7 +706,7 @@ def coq_compare(chk, name, cases):
     texts = []
     for shard in shards:
         texts.append(CASES_HEADER + "Definition cases : list (list input * list obs) :=\n "
-                     + g_list([e_case(i, o) for i, o in shard]) + ".\n"
+                     + g_list([e_case(i, o) for i, o, _ in shard]) + ".\n"
                      + "Eval vm_compute in map (fun c => first_bad init (fst c) (snd c) 0) cases.\n"
                      + "Eval vm_compute in map monitor_code cases.\n")
     results = vlib.coq_eval_many(AREA, texts, jobs=12)
@@ -669,7 +719,7 @@ def coq_compare(chk, name, cases):
             chk.corr_failure(name, {"shard": "coq evaluation failed"}, out[-2000:])
             continue
         # Gallina monitors (Monitor.v: T1, T2, T3, T4 withholding, T5 invariant) on the implementation's trace
-        for (inputs, obs), code in zip(shard, lists[1]):
+        for (inputs, obs, real), code in zip(shard, lists[1]):
             for bit, mon in ((1, "coq:stopped_followed"), (2, "coq:stream_announced_once"), (4, "coq:buffering_invariant"),
                              (8, "coq:reports_sound"), (16, "coq:tags_withheld")):
                 if code & bit:
@@ -679,12 +729,13 @@ def coq_compare(chk, name, cases):
                         continue
                     chk._c06_seen_fail.add(sig)
                     chk.monitor_failure(mon, {"evaluated": "Monitor.monitor_code on the implementation trace"},
-                                        f"Gallina monitor {mon} is false on the real execution", {"inputs": inputs})
-        for (inputs, obs), cut in zip(shard, firsts):
+                                        f"Gallina monitor {mon} is false on the real execution",
+                                        {"inputs": inputs, "real_listener": real})
+        for (inputs, obs, real), cut in zip(shard, firsts):
             if cut == -1:
                 continue
             ok = False
-            chk.corr_failure(name, {"inputs": inputs[: cut + 1]},
+            chk.corr_failure(name, {"inputs": inputs[: cut + 1], "real_listener": real},
                              {"first_disagreeing_step": cut, "impl_step": slim(obs[cut]) if 0 <= cut < len(obs) else None})
     return ok
 
@@ -697,21 +748,26 @@ def slim(o):
 # ------------------------------------------------------------------ stages
 
 
-def shrink_monitor(inputs, monitor, key):
+def shrink_monitor(inputs, monitor, key, real_listener=False):
     def fails(cand):
         try:
-            return any(m == monitor and kk == key for m, kk, _ in monitors(cand, run_impl(cand)))
+            return any(m == monitor and kk == key
+                       for m, kk, _ in monitors(cand, run_impl(cand, real_listener=real_listener)))
         except Exception:  # noqa: BLE001
             return False
     return vlib.shrink_list(inputs, fails)
 
 
-def check_cases(chk, name, all_inputs, rng):
+def check_cases(chk, name, all_inputs, rng, listener=lambda idx: False):
+    """listener(idx) -> observe case idx at a real AudioListener actor (events as RECEIVED
+    through mopidy.listener.send and the pykka mailbox) instead of at a patched send."""
     cases = []
     seen_fail = chk.__dict__.setdefault("_c06_seen_fail", set())
-    for inputs in all_inputs:
+    for idx, inputs in enumerate(all_inputs):
         inputs = [tuple(i) for i in inputs]
-        obs = run_impl(inputs, rng=rng)
+        real = bool(listener(idx))
+        chk.dist("observed-at:" + ("listener-actor" if real else "patched-send"))
+        obs = run_impl(inputs, rng=rng, real_listener=real)
         nontrivial = None
         names = [e["name"] for o in obs for e in o["events"]]
         buf_cmds = any(o["cmds"] for i, o in zip(inputs, obs) if i[0] == "buf")
@@ -740,11 +796,11 @@ def check_cases(chk, name, all_inputs, rng):
                 chk.dist("monitor-repeat:" + mon)
                 continue
             seen_fail.add(sig)
-            small = shrink_monitor(inputs, mon, key)
-            chk.monitor_failure(mon, key, what, {"inputs": small})
+            small = shrink_monitor(inputs, mon, key, real_listener=real)
+            chk.monitor_failure(mon, key, what, {"inputs": small, "real_listener": real})
         try:
             e_case(inputs, obs)
-            cases.append((inputs, obs))
+            cases.append((inputs, obs, real))
         except Unrepresentable as ex:
             chk.corr_failure(name, {"inputs": inputs}, f"implementation showed something outside the model's vocabulary: {ex}")
         if len(chk.samples) < 3 and nontrivial:
@@ -775,6 +831,7 @@ def search_hook_factory(chk):
         base = case.get("inputs")
         if not base:
             return None
+        real = bool(case.get("real_listener"))
         rng = vlib.Rng(chk.seed, "c06-search")
         for _ in range(300):
             cand = [tuple(i) for i in base]
@@ -788,12 +845,12 @@ def search_hook_factory(chk):
                 else:
                     cand[min(pos, len(cand) - 1)] = gen_random_input(rng, True)
             try:
-                fails = monitors(cand, run_impl(cand))
+                fails = monitors(cand, run_impl(cand, real_listener=real))
             except Exception:  # noqa: BLE001
                 continue
             if fails:
                 mon, key, what = fails[0]
-                return {"monitor": mon, "key": key, "what": what, "case": {"inputs": shrink_monitor(cand, mon, key)}}
+                return {"monitor": mon, "key": key, "what": what, "case": {"inputs": shrink_monitor(cand, mon, key, real_listener=real), "real_listener": real}}
         return None
     return hook
 
@@ -832,7 +889,7 @@ def run(chk):
         data = json.loads(open(chk.replay).read())
         case = data.get("case") or (data.get("correspondence_failures") or [{}])[0].get("case") or {}
         inputs = [[tuple(i) for i in case["inputs"]]]
-        ok = check_cases(chk, "audio", inputs, None)
+        ok = check_cases(chk, "audio", inputs, None, listener=lambda _i: bool(case.get("real_listener")))
         chk.obligation("corr:audio", "correspondence", ok)
         return
 
@@ -844,8 +901,16 @@ def run(chk):
         inputs, style = gen_case(chk.rng, max_len if chk.rng.random() < 0.5 else 20)
         chk.dist("style:" + style)
         gen.append(inputs)
-    ok = check_cases(chk, "audio", load_corpus() + gen, vlib.Rng(chk.seed, "c06-answers"))
+    # every third case is observed at a real listener actor
+    ok = check_cases(chk, "audio", load_corpus() + gen, vlib.Rng(chk.seed, "c06-answers"),
+                     listener=lambda i: i % 3 == 1)
     chk.obligation("corr:audio", "correspondence", ok)
+
+    # delivery: histories with identical consecutive events, observed where a listener actor
+    # receives them (mopidy.listener.send + pykka mailbox are then inside the checked path)
+    reps = list(REPEAT_CORPUS) + load_corpus() + [gen_repeats(chk.rng) for _ in range(250 if quick else 4000)]
+    ok = check_cases(chk, "audio_listener", reps, vlib.Rng(chk.seed, "c06-answers-2"), listener=lambda i: True)
+    chk.obligation("corr:audio_listener", "correspondence", ok)
 
     sweep = sweep_inputs(full=not quick)
     ok = check_cases(chk, "state_sweep", sweep, None)
